@@ -6,7 +6,7 @@
 (* machine  cd sandbox -> launcher env -> pre_launch[..] -> launch ->      *)
 (* post_launch[..] -> exit RP_RET;  the launcher starts one instance of    *)
 (* the exec script per rank, each a sequential machine                     *)
-(*   SetRpEnv -> RankId -> TaskEnv -> PreExec[..] -> (sync) -> Exec ->     *)
+(*   SetRpEnv -> RankId -> NamedEnv -> TaskEnv -> PreExec[..] -> (sync) -> Exec ->     *)
 (*   PostExec[..] -> Exit(RP_RET)                                          *)
 (* Ranks interleave freely (they are separate processes).  The outcome of  *)
 (* every command (ok | fail) and the exit code of the executable are       *)
@@ -27,15 +27,16 @@ CONSTANTS Cfgs,              \* bounded input domain: set of task shapes
           DevEnvUnescaped,   \* D21: export K="v" unescaped, a double quote in v breaks the script
           DevIgnorePreFail,  \* a failing pre_exec does not end the script
           DevRetAfterPost,   \* RP_RET is overwritten by the post_exec commands
+          DevNamedEnvLast,   \* the named environment is activated after the described exports
           DevErrDirFromOut   \* whether stderr goes into the sandbox is decided by the stdout name
 
 VARIABLES cfg, F, xrc,
           lpc, lidx, lran, lret, lcode, cwd, outto, errto,
-          pc, idx, ran, execd, ret, code, envs, arrived,
+          pc, idx, ran, execd, ret, code, envs, envval, arrived,
           printed
 
 vars == <<cfg, F, xrc, lpc, lidx, lran, lret, lcode, cwd, outto, errto,
-          pc, idx, ran, execd, ret, code, envs, arrived, printed>>
+          pc, idx, ran, execd, ret, code, envs, envval, arrived, printed>>
 
 Rk == Ranks(cfg)
 
@@ -51,11 +52,12 @@ Init ==
   /\ ret = [r \in Ranks(cfg) |-> 0]
   /\ code = [r \in Ranks(cfg) |-> -1]
   /\ envs = [r \in Ranks(cfg) |-> {}]
+  /\ envval = [r \in Ranks(cfg) |-> EnvBefore(cfg)]
   /\ arrived = {}
   /\ printed = FALSE
 
 LVars == <<lpc, lidx, lran, lret, lcode, cwd, outto, errto>>
-RVars == <<pc, idx, ran, execd, ret, code, envs, arrived>>
+RVars == <<pc, idx, ran, execd, ret, code, envs, envval, arrived>>
 
 (* ------------------------------------------------------------------------ *)
 (* launch script                                                            *)
@@ -107,7 +109,7 @@ Launch ==                                 \* the launcher starts every rank
           /\ pc' = [r \in Rk |-> "env"]
           /\ UNCHANGED <<lret, lidx>>
   /\ UNCHANGED <<cfg, F, xrc, lran, lcode, cwd, printed,
-                 idx, ran, execd, ret, code, envs, arrived>>
+                 idx, ran, execd, ret, code, envs, envval, arrived>>
 
 Collect ==                                \* RP_RET=$? of the launcher
   /\ lpc = "wait" /\ \A r \in Rk : pc[r] = "done"
@@ -127,18 +129,33 @@ RStep(r, here, next, grp) ==
   /\ pc[r] = here
   /\ pc' = [pc EXCEPT ![r] = next]
   /\ envs' = [envs EXCEPT ![r] = @ \cup grp]
-  /\ UNCHANGED <<cfg, F, xrc, idx, ran, execd, ret, code, arrived, printed>> /\ UNCHANGED LVars
+  /\ UNCHANGED <<cfg, F, xrc, idx, ran, execd, ret, code, envval, arrived, printed>> /\ UNCHANGED LVars
 
 SetRpEnv(r) == RStep(r, "env", "rankid", {"rp"})
-RankId(r)   == RStep(r, "rankid", "taskenv", {"rank"})
+RankId(r)   == RStep(r, "rankid", "nenv", {"rank"})
+
+\* _get_task_env, first block: ". <activation script of the named environment>"
+\* (defines what the environment captured, unsets what the agent had beyond it)
+\* second block: "export K=v" for the described variables
+EnvStep(r, here, next, grp, val) ==
+  /\ pc[r] = here
+  /\ pc' = [pc EXCEPT ![r] = next]
+  /\ envs' = [envs EXCEPT ![r] = @ \cup grp]
+  /\ envval' = [envval EXCEPT ![r] = val]
+  /\ UNCHANGED <<cfg, F, xrc, idx, ran, execd, ret, code, arrived, printed>> /\ UNCHANGED LVars
+
+NamedEnv(r) ==
+  EnvStep(r, "nenv", "taskenv", IF cfg.nenv THEN {"named"} ELSE {},
+          IF DevNamedEnvLast THEN Export(envval[r]) ELSE Activate(cfg, envval[r]))
 
 TaskEnv(r) ==
   IF DevEnvUnescaped /\ \E i \in 1 .. Len(cfg.env) : cfg.env[i] = "dquote"
   THEN \* bash cannot parse the export line: nothing after it runs
        /\ pc[r] = "taskenv"
        /\ pc' = [pc EXCEPT ![r] = "done"] /\ code' = [code EXCEPT ![r] = 2]
-       /\ UNCHANGED <<cfg, F, xrc, idx, ran, execd, ret, envs, arrived, printed>> /\ UNCHANGED LVars
-  ELSE RStep(r, "taskenv", "pre", {"task"})
+       /\ UNCHANGED <<cfg, F, xrc, idx, ran, execd, ret, envs, envval, arrived, printed>> /\ UNCHANGED LVars
+  ELSE EnvStep(r, "taskenv", "pre", {"task"},
+               IF DevNamedEnvLast THEN Activate(cfg, envval[r]) ELSE Export(envval[r]))
 
 \* "cmd || rp_error sig" of the exec script; entries not meant for this rank are skipped
 RCmd(r, sig, es, here, next) ==
@@ -163,7 +180,7 @@ RCmd(r, sig, es, here, next) ==
                        ELSE /\ code' = [code EXCEPT ![r] = FailCode]
                             /\ pc' = [pc EXCEPT ![r] = "done"]
                             /\ UNCHANGED <<idx, ret>>
-  /\ UNCHANGED <<cfg, xrc, execd, envs, arrived, printed>> /\ UNCHANGED LVars
+  /\ UNCHANGED <<cfg, xrc, execd, envs, envval, arrived, printed>> /\ UNCHANGED LVars
 
 PreExec(r)  == RCmd(r, "pre_exec",  cfg.pre,  "pre",  IF cfg.sync THEN "sync" ELSE "exec")
 PostExec(r) == RCmd(r, "post_exec", cfg.post, "post", "exit")
@@ -171,12 +188,12 @@ PostExec(r) == RCmd(r, "post_exec", cfg.post, "post", "exit")
 SyncArrive(r) ==                          \* echo $RP_RANK >> pre_exec.sig
   /\ pc[r] = "sync" /\ r \notin arrived
   /\ arrived' = arrived \cup {r}
-  /\ UNCHANGED <<cfg, F, xrc, pc, idx, ran, execd, ret, code, envs, printed>> /\ UNCHANGED LVars
+  /\ UNCHANGED <<cfg, F, xrc, pc, idx, ran, execd, ret, code, envs, envval, printed>> /\ UNCHANGED LVars
 
 SyncPass(r) ==                            \* wc -l >= $RP_RANKS
   /\ pc[r] = "sync" /\ arrived = Rk
   /\ pc' = [pc EXCEPT ![r] = "exec"]
-  /\ UNCHANGED <<cfg, F, xrc, idx, ran, execd, ret, code, envs, arrived, printed>> /\ UNCHANGED LVars
+  /\ UNCHANGED <<cfg, F, xrc, idx, ran, execd, ret, code, envs, envval, arrived, printed>> /\ UNCHANGED LVars
 
 Exec(r) ==                                \* executable & ; wait ; RP_RET=$?
   /\ pc[r] = "exec"
@@ -186,13 +203,13 @@ Exec(r) ==                                \* executable & ; wait ; RP_RET=$?
   /\ execd' = [execd EXCEPT ![r] = TRUE]
   /\ ran' = [ran EXCEPT ![r] = Append(@, ExecMark)]
   /\ pc' = [pc EXCEPT ![r] = "post"] /\ idx' = [idx EXCEPT ![r] = 1]
-  /\ UNCHANGED <<cfg, F, code, envs, arrived, printed>> /\ UNCHANGED LVars
+  /\ UNCHANGED <<cfg, F, code, envs, envval, arrived, printed>> /\ UNCHANGED LVars
 
 Exit(r) ==                                \* exit $RP_RET
   /\ pc[r] = "exit"
   /\ code' = [code EXCEPT ![r] = ret[r]]
   /\ pc' = [pc EXCEPT ![r] = "done"]
-  /\ UNCHANGED <<cfg, F, xrc, idx, ran, execd, ret, envs, arrived, printed>> /\ UNCHANGED LVars
+  /\ UNCHANGED <<cfg, F, xrc, idx, ran, execd, ret, envs, envval, arrived, printed>> /\ UNCHANGED LVars
 
 XrcSeq == [i \in 1 .. cfg.ranks |-> xrc[i - 1]]
 
@@ -204,7 +221,7 @@ Finish ==                                 \* one line per terminal state for the
 
 Step ==
   \/ Cd \/ LEnv \/ PreLaunch \/ Launch \/ Collect \/ PostLaunch \/ LExit
-  \/ \E r \in Rk : \/ SetRpEnv(r) \/ RankId(r) \/ TaskEnv(r) \/ PreExec(r)
+  \/ \E r \in Rk : \/ SetRpEnv(r) \/ RankId(r) \/ NamedEnv(r) \/ TaskEnv(r) \/ PreExec(r)
                    \/ SyncArrive(r) \/ SyncPass(r) \/ Exec(r) \/ PostExec(r) \/ Exit(r)
 
 Next == Step \/ Finish
@@ -220,8 +237,9 @@ TypeOK ==
   /\ cfg.ranks \in 1 .. 4 /\ cfg.lm \in {"fork", "mpi"} /\ (cfg.lm = "fork" => cfg.ranks = 1)
   /\ \A i \in 1 .. Len(cfg.argv) : cfg.argv[i] \in Classes
   /\ \A i \in 1 .. Len(cfg.env) : cfg.env[i] \in Classes
+  /\ Len(cfg.envk) = Len(cfg.env) /\ \A i \in 1 .. Len(cfg.envk) : cfg.envk[i] \in KeyKinds
   /\ lpc \in {"cd", "lenv", "prel", "launch", "wait", "postl", "exit", "done"}
-  /\ \A r \in Rk : pc[r] \in {"idle", "env", "rankid", "taskenv", "pre", "sync", "exec",
+  /\ \A r \in Rk : pc[r] \in {"idle", "env", "rankid", "nenv", "taskenv", "pre", "sync", "exec",
                               "post", "exit", "done"}
   /\ \A r \in Rk : \A j \in 1 .. Len(ran[r]) : ran[r][j].sig \in Sigs
   /\ \A f \in F : f.sig \in Sigs /\ f.r \in Rk \cup {L}
@@ -264,10 +282,18 @@ InvPostNeedsExec ==
 \* pre_exec_sync: no executable starts before every rank finished its pre_exec
 InvBarrier ==
   cfg.sync => \A r \in Rk : execd[r] =>
-    \A q \in Rk : pc[q] \notin {"idle", "env", "rankid", "taskenv", "pre"}
+    \A q \in Rk : pc[q] \notin {"idle", "env", "rankid", "nenv", "taskenv", "pre"}
 
 \* the executable sees the RP_*, rank and task environment, in the task sandbox
-InvEnv == \A r \in Rk : execd[r] => envs[r] = {"rp", "rank", "task"} /\ cwd = "sandbox"
+InvEnv ==
+  \A r \in Rk : execd[r] =>
+    /\ envs[r] = {"rp", "rank", "task"} \cup (IF cfg.nenv THEN {"named"} ELSE {})
+    /\ cwd = "sandbox"
+
+\* exactly the described environment: every described variable has the described
+\* value, whatever the named environment or the agent's environment say about it
+InvDescribedEnv ==
+  \A r \in Rk : execd[r] => envval[r] = SeenEnv(cfg) /\ \A i \in 1 .. Len(cfg.env) : envval[r][i] = "described"
 
 \* launch script: a failing pre_launch launches nothing; the exit code is the
 \* launcher's unless a pre/post_launch command failed
